@@ -131,7 +131,7 @@ def run(tier: str, seed: int) -> int:
     for kind in ("dense", "iso", "bd"):
         inst = markov.make_instance(random.Random(1), kind, K=2, n=2, d=2 if kind != "dense" else 1)
         marg, mseq = markov.build(inst)
-        for shape in ((), (3,), (2, 3)):
+        for shape in ((), (3,), (2, 3), (1,), (1, 1), (3, 1), (1, 2)):
             s = mseq.sample(jax.random.PRNGKey(7), shape=shape)
             shapes = {tuple(np.shape(x)) for x in jax.tree_util.tree_leaves(s)}
             rep.traces += 1
@@ -139,7 +139,7 @@ def run(tier: str, seed: int) -> int:
             want = {tuple(shape) + (inst["K"] + 1, inst["d"])}
             if shapes != want:
                 rep.violation(f"impl:sample:{kind}:shape", f"{kind}: sample(shape={shape}) leaves have shapes {shapes}, expected {want}", {})
-            if shape:
+            if shape and shapes == want:
                 flat = np.asarray(jax.tree_util.tree_leaves(s)[0]).reshape(int(np.prod(shape)), -1)
                 if len({tuple(np.round(r, 12)) for r in flat}) != flat.shape[0]:
                     rep.violation(f"impl:sample:{kind}:batch-members-share-draws", f"{kind}: samples of a batch are not distinct", {})
@@ -158,8 +158,12 @@ def run(tier: str, seed: int) -> int:
 
 def _prior_grid(rep, tier, rng, table):
     cases = [("dense", 1, 2, [F(1, 2), F(1)]), ("iso", 1, 2, [F(1), F(1, 2)]), ("bd", 1, 1, [F(2), F(1, 2)]), ("dense", 2, 1, [F(1), F(1)])]
+    # decreasing grids (the priors support negative steps: noise factor sqrt(abs(dt)), signed preconditioner): zero
+    # draws must reproduce the prior means A(h) m with the polynomial A(h) of IwpExact at negative h
+    cases += [("iso", 1, 2, [F(-1, 2), F(-1)]), ("dense", 1, 2, [F(-1), F(-1, 2)]), ("bd", 1, 2, [F(-1, 2), F(-2)])]
     if tier == "thorough":
-        cases += [("iso", 2, 2, [F(1, 2), F(1, 2)]), ("bd", 2, 2, [F(1), F(2)]), ("dense", 1, 1, [F(1, 2), F(2), F(1)])]
+        cases += [("iso", 2, 2, [F(1, 2), F(1, 2)]), ("bd", 2, 2, [F(1), F(2)]), ("dense", 1, 1, [F(1, 2), F(2), F(1)]),
+                  ("iso", 2, 2, [F(-1, 2), F(-1, 2)]), ("bd", 2, 1, [F(-1), F(-1, 2)]), ("dense", 2, 1, [F(-1), F(-1)])]
     for kind, q, d, hs in cases:
         n = q + 1
         lam = [F(1)] * d
@@ -172,7 +176,10 @@ def _prior_grid(rep, tier, rng, table):
             continue
         N = n * d
         eps = F(1, 2)  # inexact initial condition so that the initial marginal has a covariance
-        conds = [dict(A=r1[k]["A_h1"], b=[F(0)] * N, LQ=[[F(0)]], tl=[F(1)] * N, to=[F(1)] * N, useQd=True, Qd=r1[k]["Q_h1"]) for k in range(len(hs))]
+        def signed(Q, h):
+            return Q if h > 0 else [[-x for x in row] for row in Q]
+
+        conds = [dict(A=r1[k]["A_h1"], b=[F(0)] * N, LQ=[[F(0)]], tl=[F(1)] * N, to=[F(1)] * N, useQd=True, Qd=signed(r1[k]["Q_h1"], hs[k])) for k in range(len(hs))]
         m0 = [F(rng.randint(-2, 2)) for _ in range(N)]
         inst = exact.ratify(dict(m=m0, LP=[[eps if a == b else F(0) for b in range(N)] for a in range(N)], conds=conds,
                                  H=[[F(1) if c == 0 else F(0) for c in range(N)]], noise=[[F(1)]] * (len(hs) + 1), data=[[F(0)]] * (len(hs) + 1)))
@@ -201,5 +208,9 @@ def _prior_grid(rep, tier, rng, table):
             continue
         if not exact.close(s0, means, 1e-9):
             rep.violation(f"impl:from_grid:{kind}:zero-draws-are-not-the-prior-means", f"{kind} q={q} d={d}: relerr {exact.maxerr(s0, means):.2e}", {})
-        if not exact.close(W @ W.T, joint, 1e-9):
+        # backward steps: the library scales Cholesky factors with abs(preconditioner) in all three models, so the
+        # cross-covariances between even and odd coefficients keep the sign of the forward process; the properties
+        # quantify over h > 0 / positive scalings only (DESIGN.md 11.3, observations), so only the mean map is held
+        # to the exact model on decreasing grids
+        if all(h > 0 for h in hs) and not exact.close(W @ W.T, joint, 1e-9):
             rep.violation(f"impl:from_grid:{kind}:gram-of-the-linear-map-is-not-the-joint-prior-covariance", f"{kind} q={q} d={d}: relerr {exact.maxerr(W @ W.T, joint):.2e}", {})
